@@ -264,7 +264,14 @@ func checkC01() int {
 	pool := newPool()
 	nProg := c.pick(150, 2500)
 	nCfg := c.pick(6, 18)
-	cases := genCases(c, nProg, 1, nil)
+	cases := genCases(c, nProg, 1, func(i int) *gen.Opt {
+		if i%3 != 0 {
+			return nil
+		}
+		// duplication of processes that are poised at calls, forwards and cuts
+		o := gen.Opt{MaxSplit: 4, Pol: 2, Alias: 30, ExplicitSelf: 15, ExplicitProv: 15, Exec: 10, Print: 8, TopMax: 3, Fuel: 3, MultiProv: 60, Drop: 12, Split: 35, Tail: 30, TopCall: 50, Mixed: i%2 == 0, MainMode: []vast.Mode{vast.Rep, vast.Lin, vast.Mul, vast.Lin}[i%4]}
+		return &o
+	})
 	cases = append(cases, closedCorpus(pool)...)
 	c.Rule = "G1 programs (type-directed generator, closed, terminating) and closed corpus programs that Grits' typechecker accepts, each run in async/sync/np under seeded configurations (monitor, GOMAXPROCS, perturbation profile); non-trivial = distinct program that spawned >= 3 processes and exchanged >= 4 messages in some run"
 	c.Assumptions = []string{"a worker death is attributed to the job it had started", "deaths while typechecking are C09's business and make the program 'not accepted' here"}
